@@ -4,8 +4,8 @@
 // Contracts for the deductive verifier in /verif (govc). Comment-only: no executable code.
 package flowcontrols
 
-//@ interface (UpstreamLimiter).GetOrDefault props C01
-//@   pure
+//@ interface (UpstreamLimiter).GetOrDefault(l, name) props C01, C05
+//@   pure-def limiterFor(l, name)
 
 //@ func NewUpstreamLimiter props C11
 //@   trusted "constructor: allocates a limiter and its helpers, touches no existing object"
@@ -69,9 +69,17 @@ package flowcontrols
 //@ const theCache = smget(LFCM, box(name))
 //@ const remoteUsable = f.rateLimiter == "remote" && len(strategyOf(theCache)) != 0 && strategyOf(theCache) != "local" && f.clientSets != nil && csReady(f.clientSets, f.cluster) && remoteOf(theCache) != nil
 
-//@ func (*upstreamLimiter).Load props C09
+//@ func (*upstreamLimiter).Load props C09, C05
 //@   requires [wf] f.flowControls != nil && (forall k ref :: {smhas(LFCM, k)} smhas(LFCM, k) ==> smget(LFCM, k) != nil)
 //@   modifies f.switchToLocalReason[*]
 //@   ensures [found] result1 == old(smhas(LFCM, box(name))) && (!result1 ==> result == nil)
 //@   ensures [remote_when_usable] result1 && old(remoteUsable) ==> result == old(remoteOf(theCache))
 //@   ensures [local_otherwise] result1 && !old(remoteUsable) ==> result == old(localOf(theCache))
+
+// Limits are per cluster and per schema (C05): the limiter handed to a request is the one registered under exactly the
+// schema name its policy asked for in this cluster's own map, and the cluster's default limiter when there is none.
+//@ func (*upstreamLimiter).GetOrDefault props C05, C09
+//@   requires [wf] f.flowControls != nil && (forall k ref :: {smhas(LFCM, k)} smhas(LFCM, k) ==> smget(LFCM, k) != nil)
+//@   modifies f.switchToLocalReason[*]
+//@   ensures [own_schema] len(name) != 0 && old(smhas(LFCM, box(name))) ==> result == (old(remoteUsable) ? old(remoteOf(theCache)) : old(localOf(theCache)))
+//@   ensures [default_otherwise] len(name) == 0 || !old(smhas(LFCM, box(name))) ==> result == old(f.defaultFlowControl)
